@@ -256,15 +256,6 @@ func (c *Ctx) installRegBuiltins(ev *spec.Eval, hists []regHist) {
 		defer func() { recover() }()
 		return spec.TV{V: nowrapTerm(c.den(p).Addr(ad), p.Ghost["ef.w"].(int))}
 	}
-	// heap_unchanged(): no object that existed at entry was written
-	B["heap_unchanged"] = func(ev *spec.Eval, a []ast.Expr) spec.TV {
-		for id, v := range ev.OldHeap {
-			if now, ok := p.Heap[id]; !ok || !sameHeapVal(now, v) {
-				return spec.TV{V: smt.False}
-			}
-		}
-		return spec.TV{V: smt.True}
-	}
 }
 
 func (c *Ctx) regUnits(name string) []*vc.Unit {
